@@ -347,30 +347,36 @@ GARBAGE_ARGS = ['', ' ', ';', ';;', 'a', 'a b', '(a, b) c', '(a,) c', '() c', 'g
                 'x lambda: 1', 'true', 'false', 'on', 'off']
 
 
+def decoded_match(src, off, tok):
+    """Does the source text at off, entity-decoded (terminated references only; ';;' optionally collapsed), read tok?"""
+    from vlib import exprs
+    if src[off:off + len(tok)] == tok:
+        return 'exact'
+    window = src[off:off + 8 * len(tok) + 8]
+    if '&' not in window and ';;' not in window:
+        return None
+    for k in range(len(tok), len(tok) + 8 * window.count('&') + window.count(';;') + 1):
+        dec = exprs.decode_terminated(src[off:off + k])
+        if tok in (dec, dec.replace(';;', ';')):
+            return 'decoded'
+    return None
+
+
 def entity_decoded_token_explains(e, src):
     """Known mechanism (same root as the offset drift): attribute values are entity-decoded before they are
     parsed, so an error token that was WRITTEN with character entities is reported in its decoded form.  Holds iff
     the source text at the reported offset decodes to exactly the token."""
-    from vlib import exprs
-    tok = str(e.token)
-    off = e.offset
-    window = src[off:off + 8 * len(tok) + 8]
-    if '&' not in window and ';;' not in window:
-        return False
-    for k in range(len(tok), len(tok) + 8 * window.count('&') + window.count(';;') + 1):
-        dec = exprs.decode_terminated(src[off:off + k])
-        if tok in (dec, dec.replace(';;', ';')) and tuple(e.location) == line_col(src, off):
-            return True
-    return False
+    return decoded_match(src, e.offset, str(e.token)) == 'decoded' and tuple(e.location) == line_col(src, e.offset)
 
 
 def drift_explains(e, src):
     """The recorded drift mechanism: the token stands d characters further right, d being what the entities and
-    ';;' escapes written before it in the same attribute value predict."""
+    ';;' escapes written before it in the same attribute value predict (the token itself may, in addition, be
+    reported in its decoded form)."""
     tok = str(e.token)
     for d in range(1, 40):
         true_off = e.offset + d
-        if src[true_off:true_off + len(tok)] != tok:
+        if not decoded_match(src, true_off, tok):
             continue
         feats, seg = preceding_features(src, true_off)
         if predicted_drift(seg) == -d:
